@@ -67,6 +67,28 @@ func (c *cse) configure(i int, dir string) {
 	}
 }
 
+// cloneRepo clones the bare remote into <root>/<name> for identity i and installs the hooks.
+func (c *cse) cloneRepo(name string, i int) (string, bool) {
+	env := c.env
+	cl := []string{"clone", "-q", "-c", "lfs.url=" + c.url, "-c", "http.extraheader=X-Verif-User: " + []string{"alice", "bob"}[i]}
+	if c.roHow != "unset" {
+		cl = append(cl, "-c", "lfs.setlockablereadonly="+c.roHow)
+	}
+	d := filepath.Join(env.Root, name)
+	cl = append(cl, c.bare, d)
+	if r := env.Run(sbx.RunOpt{Dir: env.Root}, "git", cl...); !r.OK() {
+		c.setupFail("clone "+name, r)
+		return "", false
+	}
+	c.configure(i, d)
+	if up := env.Run(sbx.RunOpt{Dir: d}, "git-lfs", "update"); !up.OK() {
+		c.setupFail("git lfs update ("+name+")", up)
+		return "", false
+	}
+	env.MustGit(d, "branch", "side", "origin/side")
+	return d, true
+}
+
 func (c *cse) setup() {
 	env := c.env
 	c.bare = env.InitBare("remote.git")
@@ -110,26 +132,27 @@ func (c *cse) setup() {
 		c.setupFail("initial push", r)
 		return
 	}
-	cl := []string{"clone", "-q", "-c", "lfs.url=" + c.url, "-c", "http.extraheader=X-Verif-User: bob"}
-	if c.roHow != "unset" {
-		cl = append(cl, "-c", "lfs.setlockablereadonly="+c.roHow)
-	}
-	cl = append(cl, c.bare, filepath.Join(env.Root, "bob"))
-	if r := env.Run(sbx.RunOpt{Dir: env.Root}, "git", cl...); !r.OK() {
-		c.setupFail("clone", r)
+	b, ok := c.cloneRepo("bob", 1)
+	if !ok {
 		return
 	}
-	b := filepath.Join(env.Root, "bob")
-	c.configure(1, b)
-	if up := env.Run(sbx.RunOpt{Dir: b}, "git-lfs", "update"); !up.OK() {
-		c.setupFail("git lfs update (bob)", up)
-		return
+	dirs, idents := []string{a, b}, []int{0, 1}
+	if c.twoClones {
+		// a second clone of one user: same identity for the server, its own work tree and lock cache
+		i := c.rnd.Intn(2)
+		d, ok := c.cloneRepo([]string{"alice", "bob"}[i]+"2", i)
+		if !ok {
+			return
+		}
+		dirs, idents = append(dirs, d), append(idents, i)
 	}
-	env.MustGit(b, "branch", "side", "origin/side")
-	for i, d := range []string{a, b} {
-		c.users[i] = &user{name: []string{"alice", "bob"}[i], dir: d, exp: map[string]string{}, pol: map[string]string{}, lost: map[string]string{}, dirty: map[string]bool{}, absentUnlocked: map[string]bool{}, branch: "main"}
+	for k, d := range dirs {
+		id := []string{"alice", "bob"}[idents[k]]
+		c.users = append(c.users, &user{name: filepath.Base(d), ident: id, dir: d, exp: map[string]string{}, pol: map[string]string{}, lost: map[string]string{}, dirty: map[string]bool{}, absentUnlocked: map[string]bool{}, branch: "main"})
 	}
-	c.users[0].other, c.users[1].other = c.users[1], c.users[0]
+	for k, u := range c.users {
+		u.other = c.users[1-idents[k]]
+	}
 	// lockability according to Git itself
 	args := append([]string{"check-attr", "-z", "lockable", "--"}, c.files...)
 	ca := strings.Split(env.MustGit(a, args...), "\x00")
@@ -183,6 +206,9 @@ func runCase(run *evid.Run, idx int) caseOut {
 		c.lvKey[i] = []string{"url", "url", "global"}[r.Intn(3)]
 	}
 	c.files = []string{"a.dat", "b.dat", "sub/c.dat", "n.txt", "m.txt", "x.bin", "plain.md"}
+	if c.flavor == "plain" && idx%8 == 4 {
+		c.twoClones = true // 3 of 40 cases
+	}
 	if c.flavor == "plain" && idx%8 == 6 {
 		// dense: 10-40 extra lockable files (4 of 40 cases)
 		c.dense = true
@@ -284,12 +310,15 @@ func runCase(run *evid.Run, idx int) caseOut {
 	if c.dense {
 		fl += "+dense"
 	}
+	if c.twoClones {
+		fl += "+second-clone"
+	}
 	class := fmt.Sprintf("%s/lv=%s,%s/ro=%s/page=%d/len=%s", c.flavor, c.lv[0], c.lv[1], map[bool]string{true: "on", false: "off"}[c.readonly], c.page, lenBucket(c.seqLen))
 	class = strings.Replace(class, c.flavor+"/", fl+"/", 1)
 	c.setup()
 	if !c.abort {
 		pre := c.prefix()
-		prev := r.Intn(2)
+		prev := r.Intn(len(c.users))
 		for c.nstep < c.seqLen && !c.abort {
 			var s step
 			switch {
@@ -305,6 +334,9 @@ func runCase(run *evid.Run, idx int) caseOut {
 						o = t[len(t)-1].Owner
 					}
 					u = map[string]int{"alice": 0, "bob": 1}[o]
+					if c.twoClones && c.users[2].ident == o && r.Intn(2) == 0 {
+						u = 2
+					}
 				}
 				s = step{user: u, op: "locksverify", o: opt{mode: []string{"json", "json", "json", ""}[r.Intn(4)], t1: true}}
 				if c.t1Later {
@@ -314,9 +346,9 @@ func runCase(run *evid.Run, idx int) caseOut {
 				}
 			case c.flavor == "overlap" && c.ovAt > 0 && c.nstep >= c.ovAt && len(c.queue) == 0:
 				c.ovAt = 0
-				u := prev
-				if len(oursOf(c.table(), c.users[1-prev].name)) > len(oursOf(c.table(), c.users[prev].name)) {
-					u = 1 - prev
+				u := prev % 2
+				if len(oursOf(c.table(), c.users[1-u].ident)) > len(oursOf(c.table(), c.users[u].ident)) {
+					u = 1 - u
 				}
 				s = step{user: u, op: "overlap", o: opt{mode: c.ovShape}}
 			case len(c.queue) > 0:
@@ -372,7 +404,7 @@ func (c *cse) count(name string, n int64) {
 func main() {
 	run := evid.New("C16", "exploration")
 	defer sbx.RemoveBase()
-	run.Rule = "seeded sequences (length uniform in 1..30, a scripted 3-5 command opening in 3 of 5 cases) over {lock p, unlock p, unlock --id, unlock --force [p|--id], locks [--path P|--id ID|--limit N][--json], locks --verify [--limit N|--path P|--id ID][--json], locks --local [--path|--id|--limit N][--json], locks [--verify] --cached [--json] (+ the refused combinations --cached with --limit/--path/--id) with N from {1, 2, locks-1, locks, more} against page sizes {0,1,2} (page <, =, > N), checkout <branch>, checkout HEAD -- <files>, edit(+add), commit, merge/pull, push [one|both branches]} executed by two users (user switches with p=0.4 per step) on two clones of one bare remote against one fake LFS server; paths: lockable LFS (*.dat), lockable non-LFS (*.txt), non-lockable LFS (*.bin), plain, plus lockable files that exist on one branch only (only-main.dat/.txt, only-side.dat) and files removed from the work tree without committing (rm), so that lock/unlock (by path, --id, --force) also hit files ABSENT from the work tree, followed by the checkout/merge that brings them back; coordinates per case: dense (4 of 40 cases: 10-40 extra lockable files; the other user rewrites many of them and pushes, this user removes one or two others from the work tree WITHOUT committing, then pull/merge and `git checkout HEAD -- <files>` run the repository-scanning hooks while tracked lockable files are missing; every lockable file the command rewrote is judged, trigger hook-with-missing-lockable-file); flavor {overlap (1 case in 8: after a few ordinary commands two git-lfs processes of the same user overlap deterministically in one clone — the server hook computes/applies the request of process A, holds its response, process B runs to completion, A is released — in the shapes verify+lock, lock+verify, unlock+verify, lock+lock|unlock; expected cache = both effects = server's own-lock table), plain, verify5xx (one 5xx on a verifiable listing = the single known trigger), verify-unimpl (404/501 on locks/verify), locks-unimpl (404/501 on every lock endpoint), odd-path (two extra lockable files whose name contains a space, a double quote, non-ASCII letters or a tab), subdir-cwd (lock/unlock of sub/… issued from inside sub/), dup-content (edits may copy another file's content)}; in every 4th case the pushes run the race-instrumented binary and data-race reports touching commands.lockVerifier count as violations x locksverify(alice,bob) in {unset,true,false} via lfs.<url>.locksverify or lfs.locksverify x lfs.setlockablereadonly {unset,true,false} x server page size {0,1,2}; other answers arise from the sequence (409 on a held path, 403 on a foreign unlock, 404 on a stale id) or from scripted 500/502/503 on lock create/delete/list. Class = (flavor, locksverify pair, readonly on/off, page size, length bucket). Oracles after every command: push verdict, write bits of the files whose flags the command fixes, `locks --local --json` (ids and paths) of the acting user == sequence-defined expected cache (the other user's cache is compared at every change of the acting user and at the end of the sequence), `locks [--verify] --cached --json` == last unambiguous remote listing, unlock guard, no Go panic; in verify5xx cases the fault hits either the first verify request or (paginated server) every page after the first."
+	run.Rule = "seeded sequences (length uniform in 1..30, a scripted 3-5 command opening in 3 of 5 cases) over {lock p, unlock p, unlock --id, unlock --force [p|--id], locks [--path P|--id ID|--limit N][--json], locks --verify [--limit N|--path P|--id ID][--json], locks --local [--path|--id|--limit N][--json], locks [--verify] --cached [--json] (+ the refused combinations --cached with --limit/--path/--id) with N from {1, 2, locks-1, locks, more} against page sizes {0,1,2} (page <, =, > N), checkout <branch>, checkout HEAD -- <files>, edit(+add), commit, merge/pull, push [one|both branches]} executed by two users (user switches with p=0.4 per step) on two clones of one bare remote against one fake LFS server; paths: lockable LFS (*.dat), lockable non-LFS (*.txt), non-lockable LFS (*.bin), plain, plus lockable files that exist on one branch only (only-main.dat/.txt, only-side.dat) and files removed from the work tree without committing (rm), so that lock/unlock (by path, --id, --force) also hit files ABSENT from the work tree, followed by the checkout/merge that brings them back; coordinates per case: second-clone (3 of 40 cases: a second clone of one user, same server identity, own work tree and lock cache; locks taken in one clone, unlock --id / unlock <path> / locks --verify issued from the other; the expected cache is kept per CLONE: a clone only knows what its own commands were told); every case may also `lose the lock cache` (rm .git/lfs/lockcache.db [+ lfs/cache/locks]) between commands, which resets that clone's expected cache to empty; dense (4 of 40 cases: 10-40 extra lockable files; the other user rewrites many of them and pushes, this user removes one or two others from the work tree WITHOUT committing, then pull/merge and `git checkout HEAD -- <files>` run the repository-scanning hooks while tracked lockable files are missing; every lockable file the command rewrote is judged, trigger hook-with-missing-lockable-file); flavor {overlap (1 case in 8: after a few ordinary commands two git-lfs processes of the same user overlap deterministically in one clone — the server hook computes/applies the request of process A, holds its response, process B runs to completion, A is released — in the shapes verify+lock, lock+verify, unlock+verify, lock+lock|unlock; expected cache = both effects = server's own-lock table), plain, verify5xx (one 5xx on a verifiable listing = the single known trigger), verify-unimpl (404/501 on locks/verify), locks-unimpl (404/501 on every lock endpoint), odd-path (two extra lockable files whose name contains a space, a double quote, non-ASCII letters or a tab), subdir-cwd (lock/unlock of sub/… issued from inside sub/), dup-content (edits may copy another file's content)}; in every 4th case the pushes run the race-instrumented binary and data-race reports touching commands.lockVerifier count as violations x locksverify(alice,bob) in {unset,true,false} via lfs.<url>.locksverify or lfs.locksverify x lfs.setlockablereadonly {unset,true,false} x server page size {0,1,2}; other answers arise from the sequence (409 on a held path, 403 on a foreign unlock, 404 on a stale id) or from scripted 500/502/503 on lock create/delete/list. Class = (flavor, locksverify pair, readonly on/off, page size, length bucket). Oracles after every command: push verdict, write bits of the files whose flags the command fixes, `locks --local --json` (ids and paths) of the acting user == sequence-defined expected cache (the other user's cache is compared at every change of the acting user and at the end of the sequence), `locks [--verify] --cached --json` == last unambiguous remote listing, unlock guard, no Go panic; in verify5xx cases the fault hits either the first verify request or (paginated server) every page after the first."
 	run.Assumptions = []string{
 		"ownership ground truth = lock table of the fake server; commands of the two users never overlap in time",
 		"expected cache of a user: + lock granted (201), - unlock confirmed (200), replaced by the server's ours list at every successful UNLIMITED `git lfs locks --verify`; a listing cut off by --limit (N <= number of locks) or refused because of a filter leaves the expectation unchanged, a limited listing whose limit was not reached may or may not replace it; after a push whose verify requests all succeeded both the unchanged and the replaced set are accepted (the statement does not say that a push refreshes the cache)",
